@@ -6,6 +6,7 @@
 -/
 import CxxModel.Theorems.DeclGen
 import CxxModel.Theorems.FnGen
+import CxxModel.Theorems.DeclPre
 import CxxModel.Theorems.MemberKinds
 namespace Cxx
 open P
@@ -30,6 +31,27 @@ def SpecDeclToks.OK (env : Env) (F D : Nat) (v : SpecDeclToks) : Prop :=
     opsHeadOk v.ops = true ∧ (∀ o ∈ v.ops, o.value ≠ "auto") ∧
     applyPtrOps (.type (.mk v.segs none false) v.cst v.vol) (v.ops.map (·.type)) = some v.d1 ∧
     v.x.type = "NAME" ∧ identVal v.x.value = true ∧ v.semi.type = ";" ∧ v.ops.length + 2 ≤ F
+
+/-- the written form `spec prefix x ;` -/
+structure DeclToks where
+  spec : List Tok
+  segs : List PQSeg
+  cst : Bool
+  vol : Bool
+  ops : List Tok
+  x : Tok
+  semi : Tok
+  d1 : DType
+
+def DeclToks.toks (v : DeclToks) : List Tok := v.spec ++ (v.ops ++ [v.x, v.semi])
+
+/-- the side conditions: the specifier is a type (`TypeSpecR`), its first token has no handler of its own, the tokens
+    `ops` are a declarator prefix that denotes `d1` over that type (`PrefixSpec`), the name is an identifier -/
+def DeclToks.OK (env : Env) (F D : Nat) (v : DeclToks) : Prop :=
+  TypeSpecR env F D v.spec v.segs v.cst v.vol ∧ (∃ f r, v.spec = f :: r ∧ specFirst f.type = true) ∧
+    (∀ p ∈ (tvs v.ops).head?, declStart p.1 = true ∧ p.2 ≠ "auto") ∧
+    PrefixSpec env F (D + 1) (.type (.mk v.segs none false) v.cst v.vol) (tvs v.ops) v.d1 ∧ isFnType v.d1 = false ∧
+    v.x.type = "NAME" ∧ identVal v.x.value = true ∧ v.semi.type = ";" ∧ 2 ≤ F
 
 section kinds
 variable (env : Env) (hp : RulesProgress env.cfg = true) (hnf : env.faultAt = none) (F D : Nat)
@@ -102,6 +124,89 @@ def Item.functionGen (spec : List Tok) (segs : List PQSeg) (cst vol : Bool) (ops
           (fun W hW => parseParameters_plain env F D ps last cp W bc hps hl hlF hc hcv (by rw [hW]; exact hyp) hFp)
           hy.single_inv hs h9
       exact ⟨w7, _, ev, hi7, by rw [hb]; exact .refl _, hst7, hev7, ⟨d, hk7, hid7, hpar7⟩, hmu7⟩)
+
+/-- `S prefix x ;` at namespace scope: any type specifier, any declarator prefix -/
+def Item.variablePre (v : DeclToks) : Item env F (core F (D + 1 + 1 + 1 + 1)) :=
+  Item.ofToks env F v.toks (v.OK env F (D + 1 + 1))
+    (fun blk rest ev => ∃ dox, ItemEvent blk rest ev (.variable (plainVariable v.x v.d1 dox)))
+    (by
+      intro w b' blk rest hst hk hmu hok hy
+      obtain ⟨hspec, ⟨f, r, hfr, hfirst⟩, hhead, hpre, hfn, hx, hxv, hs, hF⟩ := hok
+      unfold DeclToks.toks at hy
+      rw [hfr] at hy
+      obtain ⟨b1, h1, hy⟩ := Yields.cons_inv hy
+      obtain ⟨b0, h5, hy⟩ := hy.split
+      obtain ⟨bmid, h8, hy⟩ := hy.split
+      obtain ⟨bx, h10, hy⟩ := hy.cons_inv
+      obtain ⟨d, bD, w7, ct, dox, ev, _, hi7, hsig7, _, hst7, hev7, hk7, hid7, hpar7, _, _, _, hmu7, _⟩ :=
+        toplevel_variable_pre env hp F (D + 1 + 1) w v.spec f r v.segs v.cst v.vol (tvs v.ops) v.ops v.x v.semi v.d1 b1 b0 bmid bx b' blk rest hst hk hmu
+          (by rw [hnf]; simp) hspec hfr hfirst h1 h5 hhead h8 hpre hfn rfl h10 hx hxv hy.single_inv hs hF
+      exact ⟨w7, _, ev, hi7, hsig7, hst7, hev7, ⟨dox, hk7, hid7, hpar7⟩, hmu7⟩)
+
+/-- `S prefix x ;` in a class body: any type specifier, any declarator prefix -/
+def Member.fieldPre (v : DeclToks) : Member env F (core F (D + 1 + 1 + 1 + 1)) :=
+  Member.single (fun b b' => v.OK env F (D + 1 + 1) ∧ Yields env.cfg b v.toks b')
+    (fun blk rest acc ev => ∃ dox, ItemEvent blk rest ev (.classField (plainField v.x v.d1 acc dox)))
+    (by
+      intro b b' k ⟨hok, hy⟩ hs
+      obtain ⟨k', hy', hs'⟩ := hy.sigEq hs
+      exact ⟨k', ⟨hok, hy'⟩, hs'⟩)
+    (by
+      intro w b' blk rest acc hst hk hacc hmu ⟨hok, hy⟩
+      obtain ⟨hspec, ⟨f, r, hfr, hfirst⟩, hhead, hpre, hfn, hx, hxv, hs, hF⟩ := hok
+      unfold DeclToks.toks at hy
+      rw [hfr] at hy
+      obtain ⟨b1, h1, hy⟩ := Yields.cons_inv hy
+      obtain ⟨b0, h5, hy⟩ := hy.split
+      obtain ⟨bmid, h8, hy⟩ := hy.split
+      obtain ⟨bx, h10, hy⟩ := hy.cons_inv
+      obtain ⟨d, bD, w7, ct, dox, ev, _, hi7, hsig7, _, hst7, hev7, hk7, hid7, hpar7, _, _, _, hmu7, _⟩ :=
+        toplevel_field_pre env hp F (D + 1 + 1) w v.spec f r v.segs v.cst v.vol (tvs v.ops) v.ops v.x v.semi v.d1 b1 b0 bmid bx b' blk rest hst hk acc hacc hmu
+          (by rw [hnf]; simp) hspec hfr hfirst h1 h5 hhead h8 hpre hfn rfl h10 hx hxv hy.single_inv hs hF
+      exact ⟨w7, _, ev, hi7, hsig7, hst7, hev7, ⟨dox, hk7, hid7, hpar7⟩, hmu7⟩)
+
+/-- `S ptr-ops f(P₁, …, Pₙ) quals ;` in a class body, `S` any type specifier -/
+def Member.methodGen (spec : List Tok) (segs : List PQSeg) (cst vol : Bool) (ops : List Tok) (x op : Tok) (ps : List (PItem × DType × Tok))
+    (last : PItem × DType) (cp : Tok) (quals : List Tok) (semi : Tok) (d1 : DType) : Member env F (core F (D + 1 + 1 + 1 + 1)) where
+  At := fun b b' =>
+    ((TypeSpecR env F (D + 1 + 1) spec segs cst vol ∧ (∃ f r, spec = f :: r ∧ specFirst f.type = true) ∧
+      opsHeadOk ops = true ∧ (∀ o ∈ ops, o.value ≠ "auto") ∧
+      applyPtrOps (.type (.mk segs none false) cst vol) (ops.map (·.type)) = some d1 ∧
+      x.type = "NAME" ∧ identVal x.value = true ∧ ops.length + 2 ≤ F) ∧ op.type = "(" ∧
+      (∀ q ∈ ps, q.1.OK q.2.1 ∧ q.2.2.type = "," ∧ q.2.2.value ≠ ")" ∧ q.1.pairs.length + q.1.ops.length + 2 ≤ F) ∧
+      last.1.OK last.2 ∧ last.1.pairs.length + last.1.ops.length + 2 ≤ F ∧ cp.type = ")" ∧ cp.value = ")" ∧ ps.length + 1 ≤ F ∧
+      semi.type = ";" ∧ semi.value = ";" ∧ quals.length + 1 ≤ F ∧
+      (∀ d acc, ∃ m', applyQuals { plainFunction x d1 d with parameters := ps.map (fun q => q.1.param q.2.1) ++ [last.1.param last.2], isMethod := true, access := some acc } (quals.map (·.value)) = some m')) ∧
+    Yields env.cfg b (spec ++ (ops ++ (x :: op ::
+      ((ps.flatMap (fun q => q.1.toks ++ [q.2.2]) ++ (last.1.toks ++ [cp])) ++ (quals ++ [semi]))))) b'
+  Ev := fun blk rest acc evs => ∃ ev d m',
+    applyQuals { plainFunction x d1 d with parameters := ps.map (fun q => q.1.param q.2.1) ++ [last.1.param last.2], isMethod := true, access := some acc } (quals.map (·.value)) = some m' ∧
+    evs = [ev] ∧ ItemEvent blk rest ev (.classMethod m')
+  accOut := id
+  size := 1
+  at_sigEq := by
+    intro b b' k ⟨hok, hy⟩ hs
+    obtain ⟨k', hy', hs'⟩ := hy.sigEq hs
+    exact ⟨k', ⟨hok, hy'⟩, hs'⟩
+  sound := by
+    intro w b' blk rest acc hst hk hacc hmu ⟨⟨⟨hspec, ⟨f, r, hfr, hfirst⟩, h4, h5, h6, h7, h8, h9⟩, ho, hps, hl, hlF, hc, hcv, hFp, hs, hsv, hFq, hq⟩, hy⟩
+    rw [hfr] at hy
+    obtain ⟨b1, t0, hy⟩ := Yields.cons_inv hy
+    obtain ⟨b0, hy0, hy⟩ := hy.split
+    obtain ⟨bmid, hy1, hy⟩ := hy.split
+    obtain ⟨bx, t1, hy⟩ := hy.cons_inv
+    obtain ⟨bo, t2, hy⟩ := hy.cons_inv
+    obtain ⟨bc, hyp, hy⟩ := hy.split
+    obtain ⟨bq, hyq, hy⟩ := hy.split
+    obtain ⟨d, bD, hd⟩ := getDoxygen_ok env.cfg hp env.mcRe w.buf (some f) b1 t0
+    obtain ⟨m', hm'⟩ := hq d acc
+    obtain ⟨w7, ct, ev, hi7, hb, _, hst7, hev7, hk7, hid7, hpar7, _, _, hmu7, _⟩ :=
+      toplevel_method_gen env hp F D w spec f r segs cst vol ops x op (ps.map (fun q => q.1.param q.2.1) ++ [last.1.param last.2]) semi quals m' d1
+        b1 b0 bmid bx bo bc bq b' blk rest hst hk hmu (by rw [hnf]; simp) hspec hfr hfirst t0 hy0 h4 h5 hy1 h6 t1 h7 h8 t2 ho
+        (fun W hW => parseParameters_plain env F D ps last cp W bc hps hl hlF hc hcv (by rw [hW]; exact hyp) hFp)
+        hyq hy.single_inv hs hsv hFq h9 d bD hd (by rw [hacc]; exact hm')
+    exact ⟨w7, [ev], ⟨⟨[w7], .one hi7, rfl⟩, by rw [hb]; exact .refl _, ⟨_, hst7, ⟨rfl, rfl, rfl, rfl⟩, hacc⟩, hev7, hmu7⟩,
+      ev, d, m', hm', rfl, hk7, hid7, hpar7⟩
 
 end kinds
 
